@@ -38,16 +38,18 @@ class World:
         self.hedges = {"very": MObj("Very", {"__id__": "hVery", "name": Tok("hedge", tag="very"), "__bases__": ("Hedge",)}),
                        "any": MObj("Any", {"__id__": "hAny", "name": Tok("any"), "__bases__": ("Hedge",)})}
         vs = [self.vars["A"], self.vars["B"]]
+        # the engine also has a rule block (with a rule: it is not empty) whose name is a token class of its own: a name that is not a variable's
+        self.block = MObj("RuleBlock", {"__id__": "block", "name": Tok("block"), "rules": [MObj("Rule", {"__id__": "r0"})], "__len__": 1, "enabled": True})
         self.engine = MObj("Engine", {"__id__": "engine", "variables": vs, "input_variables": vs if kind == "antecedent" else [],
-                                      "output_variables": vs if kind == "consequent" else [], "name": Opaque("name")})
+                                      "output_variables": vs if kind == "consequent" else [], "rule_blocks": [self.block], "name": Opaque("name")})
         self.hedge_factory = MObj("HedgeFactory", {"__id__": "hf"})
         self.settings = MObj("Settings", {"__id__": "settings", "debugging": False, "factory_manager": MObj("FactoryManager", {"__id__": "fm", "hedge": self.hedge_factory})})
         self.tokens = [self.vars["A"].fields["name"], self.vars["B"].fields["name"], Tok("is"), Tok("hedge", tag="very"), Tok("any"),
-                       self.terms["A"].fields["name"], self.terms["B"].fields["name"], Tok("and"), Tok("or"), Tok("operand", tag="other")]
+                       self.terms["A"].fields["name"], self.terms["B"].fields["name"], Tok("and"), Tok("or"), Tok("operand", tag="other"), Tok("block")]
 
 
 def describe(tok: Tok) -> str:
-    return {"var": f"variable {tok.tag}", "term": f"term t{tok.tag}", "hedge": "hedge", "any": "any", "operand": "<other>"}.get(tok.kind, tok.kind)
+    return {"var": f"variable {tok.tag}", "term": f"term t{tok.tag}", "hedge": "hedge", "any": "any", "operand": "<other>", "block": "<name of a rule block>"}.get(tok.kind, tok.kind)
 
 
 def key_of(v: Any, memo: dict | None = None) -> Any:
@@ -134,8 +136,27 @@ def loader(check: Check, qual: str, rule: str = "LD") -> None:
         raise Internal("ValueError", "constructing a hedge that is not registered", e)
 
     printed = lambda ex_, e, recv, args, kw: Opaque("the loaded expression, printed")  # noqa: E731
+
+    def by_name(colls: tuple):  # the engine's lookups by name: Engine.__getitem__ finds variables *and* rule blocks, the others their own kind
+        def f(ex_, e, recv, args, kw=None):
+            name_ = args[0] if isinstance(args, list) else args
+            if recv is not w.engine:
+                raise Unknown(f"{qual}: lookup by name on something that is not the engine")
+            for coll in colls:
+                for c_ in w.engine.fields.get(coll, []):
+                    if c_.fields.get("name") == name_:
+                        return c_
+            raise Raised("ValueError", e)
+        return f
+
+    def engine_subscript(ex_, e, base, idx):
+        if base is w.engine:
+            return by_name(("input_variables", "output_variables", "rule_blocks"))(ex_, e, base, [idx])
+        raise Unknown(f"{qual}: subscript of {getattr(base, 'cls', type(base).__name__)} is outside the model")
     hooks = {"contains": contains, "method:construct": construct, "method:debug": lambda *a: None, "method:info": lambda *a: None,
-             "method:infix": printed, "method:postfix": printed, "method:prefix": printed}
+             "method:infix": printed, "method:postfix": printed, "method:prefix": printed, "subscript": engine_subscript,
+             "method:input_variable": by_name(("input_variables",)), "method:output_variable": by_name(("output_variables",)),
+             "method:variable": by_name(("input_variables", "output_variables")), "method:rule_block": by_name(("rule_blocks",))}
     helpers = {k: v for k, v in fn.cls.methods.items() if k in ("unload",) or (k.startswith("_") and not k.startswith("__"))}
     ex = AbsExec(qual, hooks, helpers=helpers)
     params = [a.arg for a in node.args.args]
